@@ -13,7 +13,7 @@ from engine import choose, common
 
 ID = 'C07'
 MAX_SHRINK_BUCKETS = 2
-BUDGET = {'quick': 60, 'thorough': 1200}
+BUDGET = {'quick': 75, 'thorough': 1200}
 MAXLEN = 80
 SLOW = 0.5        # seconds of CPU for an input of <= MAXLEN characters
 KILL = 6.0        # wall seconds before a worker is killed (counts as t > KILL)
@@ -32,13 +32,14 @@ META = {
                     'a super-polynomial path whose trigger is not a periodic pump of <= 3 tokens is out of reach'],
 }
 
-TOKENS = ['a', 'b', '-', '_', '0', '1', ' ', '\t', '\n', '\r\n', '\f', ',', '>', '+', '~', '*', '|', '.', '#', ':', '&',
+TOKENS = ['a', 'b', '-', '_', '0', '1', '9', ' ', '\t', '\n', '\r\n', '\f', ',', '>', '+', '~', '*', '|', '.', '#', ':', '&',
           '(', ')', '[', ']', '=', '"', "'", '\\', '\\a', '\\a ', '\\61 ', '\\aa', '\\"', '\\\n', '/*', '*/', '/**/',
           '/', 'aa,', 'a,', 'a-', '-*', '*-', 'n', '2n+1', 'of ', ' of ', ':is(', ':not(', ':has(', ':lang(',
           ':nth-child(', ':dir(', ':-soup-contains(', 'é', '\x80', '!', '^=', '$=', ' i', ' s', '--', ':--a', '@']
 PREFIXES = ['', 'a', '[a="', "[a='", '[a=', '[', '[a', ':lang(', ':lang("', ':is(', ':not(', ':nth-child(',
             ':nth-child(2n+1 of ', ':nth-child(2n', ':-soup-contains(', ':-soup-contains("', '#', '.', '/*', '\\',
-            'a ', 'a,', ':', ':dir(', 'a|', '*|']
+            'a ', 'a,', ':', ':dir(', 'a|', '*|', ':nth-child(2n-', ':nth-child(n+', ':nth-child(-n+', ':nth-last-of-type(3n-',
+            ':nth-child(']
 SUFFIXES = ['', '!', '\x00', '"', ')', ']', '\\', "'", ' ']
 
 MATCH_SIDE = [
